@@ -16,6 +16,9 @@ def plan(ctx):
                                      MaxOps=1, EnterOuts=["ok", "x"], MaxFaults=1, ext={"G": [["x", "y"]]})),
            ("dd-remove-mid", sched.mk([["G", "b", "c", "e"], "d"], Tocks=[0], MaxSteps=3, Limit=3, MaxOps=1,
                                       rem={"G": [["b", "e"], ["e", "b"], ["e", "c", "b"]]})),
+           # an idle DoDoer(always=True) is a RUNNING doer whose .done is True: removing it must close it like any other
+           ("dd-idle-removed", sched.mk([["G", "a"], "c"], extra=["x"], always={"G": True}, Tocks=[0], MaxSteps=3, Limit=4, MaxOps=2,
+                                        Rets=["T"], ext={"G": [["x"]]}, rem={"R": [["G"], ["G", "c"]], "G": [["a"]]})),
            ("enter-outs", sched.mk(["a", "b"], extra=["x", "y"], Tocks=[0], MaxSteps=3, Limit=3, MaxOps=1, EnterOuts=["ok", "x", "r"],
                                    MaxFaults=1, ext={"R": [["x", "y"]]}, rem={"R": []}))]
     mc = [("nest-ops", sched.mk(sched.NEST, extra=["x", "y", "z"], Tocks=[0, 2], MaxSteps=3, Limit=3 if q else 4, MaxOps=2,
